@@ -52,4 +52,96 @@ theorem import_uniform (e1 e2 : Env) (entry : Name × Annotations) (pkg ty f x :
     and no checker reads an imported position -/
 theorem gob_norm_invariant (a : Annotations) : a = { a with immutable := a.immutable ++ [] } := by simp
 
+
+/-! ## importers see a package's annotations exactly as the package itself does -/
+
+/-- the entries of an environment that speak about package `P` -/
+def viewOf (e : Env) (P : Name) : Env := e.filter (fun pa => pa.1 == P)
+
+theorem isImmutable_view (e : Env) (P ty : Name) : Env.isImmutable e P ty = Env.isImmutable (viewOf e P) P ty := by
+  unfold Env.isImmutable viewOf
+  induction e with
+  | nil => rfl
+  | cons a r ih =>
+    simp only [List.any_cons, List.filter_cons]
+    by_cases h : (a.1 == P) = true
+    · simp only [h, if_true, List.any_cons, Bool.true_and, ih]
+    · simp only [h, Bool.false_and, Bool.false_or, ih]; rfl
+
+theorem isMutableField_view (e : Env) (P ty f : Name) :
+    Env.isMutableField e P ty f = Env.isMutableField (viewOf e P) P ty f := by
+  unfold Env.isMutableField viewOf
+  induction e with
+  | nil => rfl
+  | cons a r ih =>
+    simp only [List.any_cons, List.filter_cons]
+    by_cases h : (a.1 == P) = true
+    · simp only [h, if_true, List.any_cons, Bool.true_and, ih]
+    · simp only [h, Bool.false_and, Bool.false_or, ih]; rfl
+
+theorem ctorNames_view (e : Env) (P ty : Name) : Env.ctorNames e P ty = Env.ctorNames (viewOf e P) P ty := by
+  unfold Env.ctorNames viewOf
+  induction e with
+  | nil => rfl
+  | cons a r ih =>
+    simp only [List.flatMap_cons, List.filter_cons]
+    by_cases h : (a.1 == P) = true
+    · simp only [h, if_true, List.flatMap_cons, ih]
+    · simp only [h, List.nil_append, ih]; rfl
+
+theorem testOnlyMethod_view (e : Env) (P ty m : Name) :
+    Env.testOnlyMethod e P ty m = Env.testOnlyMethod (viewOf e P) P ty m := by
+  unfold Env.testOnlyMethod viewOf
+  induction e with
+  | nil => rfl
+  | cons a r ih =>
+    simp only [List.any_cons, List.filter_cons]
+    by_cases h : (a.1 == P) = true
+    · simp only [h, if_true, List.any_cons, Bool.true_and, ih]
+    · simp only [h, Bool.false_and, Bool.false_or, ih]; rfl
+
+theorem testOnlyFunc_view (e : Env) (P fn : Name) : Env.testOnlyFunc e P fn = Env.testOnlyFunc (viewOf e P) P fn := by
+  unfold Env.testOnlyFunc viewOf
+  induction e with
+  | nil => rfl
+  | cons a r ih =>
+    simp only [List.any_cons, List.filter_cons]
+    by_cases h : (a.1 == P) = true
+    · simp only [h, if_true, List.any_cons, Bool.true_and, ih]
+    · simp only [h, Bool.false_and, Bool.false_or, ih]; rfl
+
+/-- **importer as declarer**: take a type `ty` of package `P`, and two analysed packages (the declaring one and an
+    importer, or two importers) whose environments hold the same entries about `P`. Outside `P`'s constructors of
+    `ty`, a field write through a value of that type, an instantiation of it, and a call of one of its @testonly
+    methods or of a @testonly function of `P` get the same verdict in both. -/
+theorem importer_as_declarer (c c' : WalkCtx) (fn fn' : Name) (P ty : Name)
+    (hview : viewOf c.env P = viewOf c'.env P)
+    (hfn : c.inConstructor fn P ty = false) (hfn' : c'.inConstructor fn' P ty = false)
+    (xTy : Option Ty) (hx : typeInfo xTy = some (P, ty)) (field m f : Name) :
+    immFieldHit c fn xTy field = immFieldHit c' fn' xTy field ∧
+    ctorHit c fn (some (P, ty)) = ctorHit c' fn' (some (P, ty)) ∧
+    tonlCall c (.sel none m xTy) = tonlCall c' (.sel none m xTy) ∧
+    tonlCall c (.sel (some P) f none) = tonlCall c' (.sel (some P) f none) := by
+  refine ⟨?_, ?_, ?_, ?_⟩
+  · unfold immFieldHit
+    simp only [hx, hfn, hfn']
+    rw [isImmutable_view c.env, isImmutable_view c'.env, isMutableField_view c.env, isMutableField_view c'.env, hview]
+  · unfold ctorHit
+    simp only [hfn, hfn']
+    rw [ctorNames_view c.env, ctorNames_view c'.env, hview]
+  · unfold tonlCall
+    simp only [hx]
+    rw [testOnlyMethod_view c.env, testOnlyMethod_view c'.env, hview]
+  · unfold tonlCall
+    simp only
+    rw [testOnlyFunc_view c.env, testOnlyFunc_view c'.env, hview]
+
+/-- the hypothesis is met by the declaring package and its importers: the declaring package indexes its own
+    annotations first, an importer finds the same entry among its facts (no other entry speaks about `P`) -/
+example (P : Name) (a : Annotations) (pre post own : Env)
+    (h1 : viewOf pre P = []) (h2 : viewOf post P = []) (h3 : viewOf own P = []) :
+    viewOf ((P, a) :: own) P = viewOf (pre ++ (P, a) :: post) P := by
+  unfold viewOf at *
+  simp [List.filter_append, List.filter_cons, h1, h2, h3]
+
 end GGV.Props.C06
